@@ -123,7 +123,7 @@ type rtCase struct {
 
 func genRTCase(t *rapid.T) *rtCase {
 	c := &rtCase{}
-	c.d = time.Duration(rapid.IntRange(20, 150).Draw(t, "delayMs")) * time.Millisecond
+	c.d = time.Duration(rapid.IntRange(40, 150).Draw(t, "delayMs")) * time.Millisecond
 	c.replace = rapid.Bool().Draw(t, "replace")
 	c.limit = rapid.SampledFrom([]int{-1, 1, 2, 3}).Draw(t, "queueLimit")
 	c.taskDur = time.Duration(rapid.IntRange(0, int(c.d.Milliseconds())*3/2).Draw(t, "taskDurMs")) * time.Millisecond
@@ -197,6 +197,30 @@ func (c *rtCase) run() {
 			canaryMu.Unlock()
 		})
 	}
+	// second canary: how late does a goroutine of this process wake up from a short sleep and get through a
+	// hand-over to another goroutine (the start of a job after a completion is a chain of such steps)
+	stopCanary, canaryDone := make(chan struct{}), make(chan struct{})
+	go func() {
+		defer close(canaryDone)
+		for {
+			select {
+			case <-stopCanary:
+				return
+			default:
+			}
+			s := time.Now()
+			time.Sleep(500 * time.Microsecond)
+			done := make(chan struct{})
+			go func() { close(done) }()
+			<-done
+			late := time.Since(s) - 1500*time.Microsecond // (a short sleep takes about 1.1 ms on an idle sandbox)
+			canaryMu.Lock()
+			if late > c.canary {
+				c.canary = late
+			}
+			canaryMu.Unlock()
+		}
+	}()
 	start := time.Now()
 	for _, op := range c.ops {
 		time.Sleep(time.Until(start.Add(time.Duration(op.atMs) * time.Millisecond)))
@@ -244,6 +268,8 @@ func (c *rtCase) run() {
 		time.Sleep(time.Millisecond)
 	}
 	time.Sleep(c.d / 4) // let canary timers report
+	close(stopCanary)
+	<-canaryDone
 	c.snaps = map[uuid.UUID]*JobSnap{}
 	pr.IterateJobs(func(j *prunner.PipelineJob) { c.snaps[j.ID] = snapJob(j) })
 	canaryMu.Lock()
@@ -254,14 +280,15 @@ func (c *rtCase) run() {
 // bound could be judged (canary quiet).
 func (c *rtCase) check() (violations []string, upperJudged bool, classes map[string]int) {
 	classes = map[string]int{}
-	eps := c.d / 3
-	if eps < 15*time.Millisecond {
-		eps = 15 * time.Millisecond
+	// an "additional delay" is a second wait of the order of d; everything below d/2 is scheduling noise
+	eps := c.d / 2
+	if eps < 25*time.Millisecond {
+		eps = 25 * time.Millisecond
 	}
 	if eps > 100*time.Millisecond {
 		eps = 100 * time.Millisecond
 	}
-	upperJudged = c.canary < eps/3
+	upperJudged = c.canary < eps/5
 	type started struct {
 		j     *rtJob
 		start time.Time
@@ -342,7 +369,7 @@ func (c *rtCase) check() (violations []string, upperJudged bool, classes map[str
 
 // TestC07Real: start delay is a lower bound and adds no extra delay; replace debounces (real timers).
 func TestC07Real(t *testing.T) {
-	col := ev.Get("C07", "realtime", "real start-delay timers: delay d in [20,150] ms, bursts of 1-6 schedule requests with spacings drawn relative to d (inside / around / across the window), both strategies, queue limits, task durations 0-1.5d so that timers expire while the pipeline is busy, occasional cancels; 16 cases run at the same time; oracle: first task begin >= instant before the request + d and start - created >= d (robust under load); start <= max(accept + d, previous job reported finished) + clamp(d/3, 15 ms, 100 ms), judged only if canary timers of the same d armed next to the requests were late by less than a third of that tolerance; a replaced job never runs, a started job is never displaced, the newest accepted job runs unless canceled, nothing is left waiting; non-trivial = a burst of >=3 accepted requests or a timer that expired while the slot was busy; distinct by plan")
+	col := ev.Get("C07", "realtime", "real start-delay timers: delay d in [40,150] ms, bursts of 1-6 schedule requests with spacings drawn relative to d (inside / around / across the window), both strategies, queue limits, task durations 0-1.5d so that timers expire while the pipeline is busy, occasional cancels; 16 cases run at the same time; oracle: first task begin >= instant before the request + d and start - created >= d (robust under load); start <= max(accept + d, previous job reported finished) + clamp(d/2, 25 ms, 100 ms) (an additional delay is a second wait of the order of d), judged only if canary timers of the same d armed next to the requests and a sleep/hand-over canary goroutine were late by less than a fifth of that tolerance; a replaced job never runs, a started job is never displaced, the newest accepted job runs unless canceled, nothing is left waiting; non-trivial = a burst of >=3 accepted requests or a timer that expired while the slot was busy; distinct by plan")
 	installHooks()
 	rapid.Check(t, func(rt *rapid.T) {
 		const batch = 16
